@@ -424,7 +424,12 @@ def shapes_and_aliases(ctx, chk):
                         App("size", (App("getitem", (flatT, Tup([Const(None), App("slice", (Const(None), Const(None), Const(None)))]))),)), Const(2), Const(2)])
         ok = bool(targets_) and targets_[0] == want_final and buf is not None and len(buf.items) == 4 and buf.items[2:] == (Const(2), Const(2))
         mids_ok = all(isinstance(t_, Tup) and t_.items[-2:] == (Const(2), Const(2)) for t_ in targets_)
-        if ok and mids_ok:
+        reord = [a for a in atoms_of(rets[0].value) if isinstance(a, App) and a.fn.startswith("reorder:")]
+        if reord:
+            chk.violation("R10.2", "score_analysis.scores.pointwise_cm", "element-order", show(reord[0], 120),
+                          "inputs flattened in logical (row-major) order, so that entry [i..., j...] belongs to scores[i...] and threshold[j...] for any memory layout",
+                          ctx.where("score_analysis.scores.pointwise_cm"))
+        elif ok and mids_ok:
             chk.hold("R10.2", "pointwise_cm:shape", "result reshaped to scores.shape + threshold.shape + (2, 2) from a (S, T, 2, 2) buffer (row-major, scores first)")
         elif targets_ and isinstance(targets_[0], Tup):
             chk.violation("R10.2", "score_analysis.scores.pointwise_cm", "shape", "final reshape target %s from buffer %s" % (show(targets_[0], 160), show(buf, 120) if buf is not None else "?"),
